@@ -49,5 +49,37 @@ P["C15"]=dict(level="other",
  quick=dict(harnesses=["verifH_C15_k3l2","verifH_C15_k3l2d2","verifH_C15_RealShardedMap","verifH_C15_RealSyncMap","verifH_C15_RealShardedMapOf"], jobs=5, workers=4),
  thorough=dict(harnesses=["verifH_C15_k3l2","verifH_C15_k4l2","verifH_C15_k3l2d2","verifH_C15_k4l3","verifH_C15_RealShardedMap","verifH_C15_RealSyncMap","verifH_C15_RealShardedMapOf"], jobs=4, workers=4))
 
+P["C03"]=dict(level="other",
+ explanation="A lone Get of the real Failover (over the real ShardedMap and SyncMap) and FailoverOf[int] (over ShardedMapOf[int]) is executed symbolically, including valueFromError/freshEnough, refreshStale, recentlyFailed, ctxSync, doBuild, the backends' Read/Write/PrepareRead and the background goroutine (run to completion after Get returned). Entry presence, its expiry E, the clock, MaxStaleness (0 or any value in (0,2^59)), failure-cache hit, FailedUpdateTTL default/-1, SyncUpdate, FailHard and the builder outcome are SMT variables; value source, builder invocation count, whether the build ran before Get returned and the backend content after quiescence are compared with a decision table transcribed from README bullets 2-7 and the MaxStaleness/FailHard comments.",
+ bounds="one key, one Get; E and clock in [0,2^62]; jitter off for the backend, failure cache jitter pinned to its midpoint (rand=0.5)",
+ outside="concurrency (C01/C02/C04/C05); SyncRead (C02 sequential harness covers it)",
+ assumptions=["a cached failure is served instead of a stale value (README: consecutive calls fail immediately with the same error)"],
+ quick=dict(harnesses=["verifH_C03_ShardedMap","verifH_C03_SyncMap","verifH_C03_ShardedMapOf"], jobs=3, workers=4),
+ thorough=dict(harnesses=["verifH_C03_ShardedMap","verifH_C03_SyncMap","verifH_C03_ShardedMapOf"], jobs=3, workers=4))
+
+P["C13"]=dict(level="other",
+ explanation="Real Dump/Restore/Walk of ShardedMap, SyncMap and ShardedMapOf[int] executed symbolically for every source/target pairing of the same family, with encoding/gob replaced by a record-stream stub that reproduces gob's two relevant behaviours (zero-valued fields are neither transmitted nor reset in the destination; a destination []byte with enough capacity is reused). <=3 entries with keys of differing lengths in all 6 orders, values nil / zero / non-zero (symbolic), expiry zero or any non-zero int64, presence bits symbolic. Both calls must report the number of entries, every key must read back with its own key bytes, value and expiry, Walk on the target must report exactly the source entries; thorough adds a second dump/restore hop (relay).",
+ bounds="<=3 entries; keys 'aaaa','bb','c' (lengths 4,2,1) in every order; one hop (quick), two hops (thorough)",
+ outside="the gob wire format, type registration failures, hundreds of entries",
+ assumptions=["encoding/gob is a record-stream stub (see DESIGN.md section 3); each record travels as one handle byte through the real io.Writer/io.Reader chain"],
+ quick=dict(harnesses=["verifH_C13_Sharded_Sharded","verifH_C13_Sharded_Sync","verifH_C13_Sync_Sharded","verifH_C13_Sync_Sync","verifH_C13_ShardedOf_ShardedOf"], jobs=5, workers=3),
+ thorough=dict(harnesses=["verifH_C13_Sharded_Sharded","verifH_C13_Sharded_Sync_relay","verifH_C13_Sync_Sharded_relay","verifH_C13_Sync_Sync","verifH_C13_ShardedOf_relay"], jobs=5, workers=3))
+
+P["C17"]=dict(level="other",
+ explanation="Sequential part: 3 (quick) or 4 (thorough) consecutive calls of the real (*Invalidator).Invalidate with a symbolic non-decreasing clock (every reading a fresh SMT variable), SkipInterval any int64 (0 means 15s), 0..3 callbacks (nil slice included). Acceptance of each call is compared with 'now - lastAccepted >= SkipInterval' (first call always accepted), accepted calls must run every callback once in registration order with the caller's context, rejected ones none and report ErrAlreadyInvalidated, no callbacks ErrNothingToInvalidate; accepted lastRun instants differ by at least SkipInterval. Concurrent calls are decided by the C17 concurrency harness (see level_note).",
+ bounds="<=4 sequential calls, <=3 callbacks, clock in [2^60,2^62]",
+ outside="more than 4 calls",
+ assumptions=[],
+ quick=dict(harnesses=["verifH_C17_Seq3"], jobs=1, workers=8),
+ thorough=dict(harnesses=["verifH_C17_Seq4"], jobs=1, workers=14))
+
+P["C18"]=dict(level="other",
+ explanation="Metric emission is local to the operation that causes it, so 'under any interleaving' reduces to: on every path of every operation the multiset of StatsTracker.Add calls equals what the operation's outcome prescribes. One backend operation (Read with/without SkipRead, Write, Delete, DeleteAll, ExpireAll, Len/Walk) from a symbolic pre-state of <=2 entries on all three backends, and one Failover/FailoverOf[int] Get over a scripted backend (entry absent/fresh/stale/too stale, SyncRead, SyncUpdate, FailHard, FailedUpdateTTL on/off, builder outcome, write fault) are executed symbolically with a recording tracker; totals per metric and name label are compared.",
+ bounds="one operation per run; <=2 entries; eviction metrics are part of C12",
+ outside="cache_items gauge (reportItemsCount goroutine not started), cache_changed (ObserveMutability uses reflect.DeepEqual)",
+ assumptions=["accounting is per operation; concurrent interleavings do not change which Add calls an operation makes given its outcome"],
+ quick=dict(harnesses=["verifH_C18_ShardedMap","verifH_C18_SyncMap","verifH_C18_ShardedMapOf","verifH_C18_Failover","verifH_C18_FailoverOf"], jobs=5, workers=3),
+ thorough=dict(harnesses=["verifH_C18_ShardedMap","verifH_C18_SyncMap","verifH_C18_ShardedMapOf","verifH_C18_Failover","verifH_C18_FailoverOf"], jobs=5, workers=3))
+
 json.dump({"common_assumptions":common,"properties":P},open('/verif/checks.json','w'),indent=1)
 print("checks.json:",sorted(P))
